@@ -17,6 +17,7 @@ class Module:
     invariants = ""      # INVARIANTS of the Gen configuration
     gen_workers = 2
     level = "model_checking"
+    begin_marker = '"ev":"Begin"'   # how a scenario's first trace line is recognised
     assumptions = []
 
     def gen_configs(self, prop, tier, sd):
@@ -102,7 +103,9 @@ def run(mod, prop, tier, replay=None, dev=False):
         tstats = collections.Counter()
         nlines = 0
         for tname, tr, imap in traces:
-            shards = vlib.split_file(tr, 12, sc.sub("shards-" + tname))
+            shards = vlib.split_file(tr, 12, sc.sub("shards-" + tname), is_begin=lambda l: mod.begin_marker in l)
+            total = sum(1 for _ in open(tr))
+            before = nlines
 
             def val(sh):
                 return vlib.validate_trace(sh + ".tlc", mod.name, sh, java_opts="-Xmx3g -XX:ParallelGCThreads=2")
@@ -114,6 +117,8 @@ def run(mod, prop, tier, replay=None, dev=False):
                     b["trace"] = tname
                     b["idx"] = (imap[b["scn"] - 1] if imap else b["scn"] - 1)
                     bad_all.append(b)
+            if nlines - before != total:
+                raise vlib.ToolFailure("only %d of %d trace lines of %s were validated" % (nlines - before, total, tr))
         rejections = []
         other = collections.Counter()
         for b in bad_all:
